@@ -39,7 +39,7 @@ PROPS = {
     'C19': {
         'level': 'proof',
         'explanation': 'CommandResult::combine is sticky; process_input folds the outcomes of the executed batches (ghost log): no batch is executed after a fatal outcome because `?` returns, result == fold_out(outcomes); CommandBuilder::execute classifies the exit status by the table of the statement (unit xexec); xargs_main maps outcomes to 0/123/124/125/126/127/1 (unit xexec).',
-        'assumptions': ['ExitStatus::{success, code, signal} consistency on unix (std)', 'the real From impls are one-liners checked against their FromSpecImpl companions (R15)'],
+        'assumptions': ['ExitStatus::{success, code, signal} consistency on unix (std)', 'the real From impls are one-liners checked against their FromSpecImpl companions (R15)', 'unit mainargs (fn main of src/xargs/main.rs, verbatim): xargs_main is reached with exactly the decoded argument vector, or the process ends with status 1 after a diagnostic; std::env::args() panics on non-Unicode arguments (modelled precondition), args_os()/into_string do not'],
         'not_decided': [],
     },
     'C20': {
@@ -98,7 +98,8 @@ PROPS = {
     'C11': {
         'level': 'other',
         'explanation': 'Panic freedom and termination for every argument vector of the parsing code that Verus verifies on the real text: build_matcher_tree (whole function after the R10 skeleton rule: every index, subtraction, unreachable!, the -exec scan loop, the ( recursion), are_more_expressions, the -printf format parser, the glob bracket scanner, the numeric operand parsers, Unit::from_str, type parse; rejection: Ok from build_matcher_tree implies the token sequence is a sentence of the reference grammar fold_from (operators never follow operators or !, no empty or unbalanced parentheses, every primary has its operands).',
-        'assumptions': ['constructors of the primaries replaced by verif_prim (R10): their own panics are outside this unit (Printf::new, glob Pattern::new and the operand parsers are covered by units printfparse, glob/globscan, numeric)', 'argument vectors are shorter than usize::MAX/2', 'dependencies (onig, regex, chrono, uucore, walkdir, clap) do not panic'],
+        'assumptions': ['constructors of the primaries replaced by verif_prim (R10): their own panics are outside this unit (Printf::new, glob Pattern::new and the operand parsers are covered by units printfparse, glob/globscan, numeric)', 'argument vectors are shorter than usize::MAX/2', 'dependencies (onig, regex, chrono, uucore, walkdir, clap) do not panic',
+                        'unit mainargs (fn main of src/find/main.rs, verbatim): std::env::args() panics on an argument that is not valid Unicode (its modelled precondition), args_os() never does; OsString::into_string is Ok(the decoded text) iff the bytes are valid UTF-8; find_main is reached with exactly the decoded argument vector, in order, or the process ends with status 1 after a diagnostic'],
         'not_decided': ['parse_args, do_find, find_main ordering (unit walk)', "run-time I/O errors of actions (out.flush().unwrap())", '-newerXY accepts leading garbage (known finding D20)'],
     },
     'C09': {
